@@ -119,7 +119,7 @@ class StubPattern:
 
     def sub(self, repl, string, count=0):
         self.calls.append(('sub', repl, string, count))
-        if not callable(repl):
+        if isinstance(repl, str):
             return self._result
         out = []
         done = 0
